@@ -386,3 +386,27 @@ Definition go_unmarshal (lim budget : Z) (inp : bytes) : goret :=
   | UFatal r => GCrash r
   | UOutOfFuel => GOutOfFuel
   end.
+
+(* Runtime.LoadFromSourceOrCode, binary branch (runtime/lib.go:421-440), which
+   is what load(s, name, "b") runs on a string with the marshal prefix:
+   UnmarshalConst, TryCode, NewClosure (runtime/closure.go: make([]Cell,
+   c.UpvalueCount) — a Go run-time panic when the count is negative), then
+   _ENV and nil cells as upvalues. *)
+Inductive lres :=
+| LFun (k : cst) (nup : Z)     (* a closure over code k with nup upvalue cells *)
+| LNotFunction                  (* error "Expected function to load" *)
+| LErr (e : err)
+| LPanic                        (* makeslice: len out of range, outside any recover *)
+| LCrash (req : Z)
+| LOutOfFuel.
+
+Definition load_binary (lim budget : Z) (inp : bytes) : lres :=
+  match go_unmarshal lim budget inp with
+  | GVal (KCode h ks) _ =>
+      if upvalueCount h <? 0 then LPanic else LFun (KCode h ks) (upvalueCount h)
+  | GVal _ _ => LNotFunction
+  | GNil _ => LNotFunction
+  | GErr e _ => LErr e
+  | GCrash r => LCrash r
+  | GOutOfFuel => LOutOfFuel
+  end.
